@@ -84,7 +84,7 @@ Proof.
   intros d lks. cbn [config_run P_config_steps].
   pose proof (decode_no_panic true d) as Hnp.
   assert (Hrej : doc_rejectable d = true -> is_err (decode true d) = true).
-  { destruct d; cbn; try discriminate; reflexivity. }
+  { destruct d as [| |n|d1|d2|[|]]; cbn; try discriminate; reflexivity. }
   destruct (decode true d) as [c|e|] eqn:E; [| |congruence].
   - cbn [is_panic negb andb is_err]. unfold lenN. rewrite !map_length, N.eqb_refl.
     assert (Hsafe : forallb (fun o : outcome (list N) cfg_err => negb (is_panic o))
@@ -92,10 +92,11 @@ Proof.
     { apply forallb_forall. intros o Ho. apply in_map_iff in Ho as (ak & <- & _).
       pose proof (decode_safe d c E (fst ak) (snd ak)) as Hs.
       destruct (lookup true (Some c) (fst ak) (snd ak)); try reflexivity. congruence. }
-    rewrite Hsafe. cbn [andb].
+    rewrite Hsafe. rewrite (registration_safe (Some c) (decode_safe d c E)). cbn [andb].
     destruct (doc_rejectable d) eqn:Er; [specialize (Hrej eq_refl); discriminate|]. reflexivity.
   - cbn [is_panic negb andb is_err]. unfold lenN. rewrite !map_length, N.eqb_refl.
     rewrite !forallb_map_const by (intros; reflexivity).
+    rewrite registration_none. cbn [is_ok andb].
     destruct (doc_rejectable d); reflexivity.
 Qed.
 
